@@ -606,6 +606,14 @@ class MessageInterfaceUDP6(RecvmsgDatagramProtocol, interfaces.MessageInterface)
 
     def datagram_msg_received(self, data, ancdata, flags, address):
         """Implementation of the RecvmsgDatagramProtocol interface, called by the transport."""
+        if flags & socket.MSG_TRUNC:
+            # What was read is only the start of a datagram that exceeded the
+            # receive buffer; it may well parse, but as a different message
+            # than the one that was sent.
+            self.log.warning(
+                "Ignoring datagram from %s that was truncated on reception", address
+            )
+            return
         pktinfo = None
         for cmsg_level, cmsg_type, cmsg_data in ancdata:
             if cmsg_level == socket.IPPROTO_IPV6 and cmsg_type == socket.IPV6_PKTINFO:
